@@ -2,7 +2,8 @@
    accessors tell the truth) for the run-length codec: count, runCount =
    number of maximal runs, encodedSize = bytes written, for both encoders and
    for varintRLEAnalyze; varintRLEGetCount; varintRLEGetRunCount. *)
-Require Import VV.Base VV.Tagged VV.RLE VV.RLESpec VV.RLELemmas VV.RLEProofs VV.RLEDictTheorems.
+Require Import VV.Base VV.Tagged VV.RLE VV.RLESpec VV.RLELemmas VV.RLEProofs VV.Dict VV.DictProofs
+  VV.RLEDictTheorems.
 Local Open Scope N_scope.
 
 (* rle_runs xs is the list of maximal runs: it expands to xs, every run is
@@ -43,7 +44,7 @@ Print Assumptions C16_rle_analyze_meta.
 (* the reported count is the number of elements decoding yields *)
 Theorem C16_rle_count_is_decoded : forall xs tl,
   Forall (fun x => x < 18446744073709551616) xs -> N.of_nat (length xs) < 18446744073709551616 ->
-  rle_decode_with_header (fst (rle_encode_with_header xs) ++ tl) (N.of_nat (length xs)) = ROk xs.
+  rle_decode_with_header (fst (rle_encode_with_header xs) ++ tl) (N.of_nat (length xs)) = RleOk xs.
 Proof. exact rle_header_roundtrip_full. Qed.
 Print Assumptions C16_rle_count_is_decoded.
 
@@ -70,6 +71,16 @@ Theorem C16_rle_get_run_count_header : forall xs tl,
   = Some (N.of_nat (length (rle_runs xs))).
 Proof. exact rle_get_run_count_header. Qed.
 Print Assumptions C16_rle_get_run_count_header.
+
+(* varintDictGetStats (integer fields): uniqueCount, totalCount, totalBytes =
+   the predicted = written size, originalBytes *)
+Theorem C16_dict_stats : forall xs d, dict_build xs = DictBuildOk d ->
+  exists dictBytes indexBytes,
+    dict_get_stats xs = Some (N.of_nat (length (dict_values_of xs)), N.of_nat (length xs),
+                              dictBytes, indexBytes, dict_encoded_size xs, mul64 (N.of_nat (length xs)) 8) /\
+    dict_encoded_size xs = dictBytes + tagged_len (N.of_nat (length xs)) + indexBytes.
+Proof. exact dict_stats_truth. Qed.
+Print Assumptions C16_dict_stats.
 
 Example C16_example :
   rle_runs [1; 1; 2; 2; 3; 3; 1; 1] = [(2, 1); (2, 2); (2, 3); (2, 1)] /\
